@@ -15,8 +15,21 @@ for d in sorted(glob.glob(os.path.join(V, "seeded", "C*"))):
     own = m["breaks_property"]
     cb = m.get("caught_by", [])
     keys = m.get("check_results", {}).get(own, {}).get("keys", [])
-    rows.append("| %s | %s | %s | %s | %s%s |" % (os.path.basename(d), own, (m.get("summary") or "").replace("|", "/").replace("\n", " ")[:300],
-                (m.get("needs") or "").replace("|", "/").replace("\n", " ")[:260], ", ".join(cb), (" — e.g. `%s`" % keys[0]) if keys else ""))
+    note = ""
+    if m.get("out_of_scope"):
+        note = "not claimed (outside the models the property quantifies over; reason in meta.json)"
+    elif m.get("masked_by_known_finding"):
+        note = "masked by open finding %s (reported as that known finding; see 12.5)" % m["masked_by_known_finding"]
+    elif m.get("caught_by_other_property"):
+        other = m["caught_by_other_property"]
+        okeys = m.get("check_results", {}).get(other, {}).get("keys", [])
+        note = "not %s's subject (meta.json: note); reported by %s%s" % (own, ", ".join(c for c in cb if c != own) or other, (" — e.g. `%s`" % okeys[0]) if okeys else "")
+        if own not in cb:
+            cb, keys = [], []
+    cell = ", ".join(cb) + ((" — e.g. `%s`" % keys[0]) if keys else "")
+    cell = (cell + "; " + note) if (cell and note) else (cell or note)
+    rows.append("| %s | %s | %s | %s | %s |" % (os.path.basename(d), own, (m.get("summary") or "").replace("|", "/").replace("\n", " ")[:300],
+                (m.get("needs") or "").replace("|", "/").replace("\n", " ")[:260], cell))
 stab = "\n".join(rows)
 p = os.path.join(V, "DESIGN.md")
 s = open(p).read()
